@@ -195,6 +195,14 @@ Section Ports.
   Variable move : option val -> option val -> tx -> option (val * val).   (* quantity.Move: None = insufficient *)
   Variable below_min : option val -> val -> bool.
   Variable queue_full : option val -> option val -> bool.
+  Variables (k_evidence k_accused_node k_accused_acct k_caller_node : tx -> N).
+  Variable validate_evidence : tx -> bool.               (* Evidence.ValidateBasic *)
+  Variable rt_slashes : option val -> bool.
+  Variable evidence_expired : option val -> option val -> tx -> bool.
+  Variable penalty_zero : option val -> bool.
+  Variable slash_escrow : option val -> tx -> option val.    (* SlashEscrow: None = error *)
+  Variable slashed_nothing : option val -> tx -> bool.
+  Variable distribute : option val -> tx -> prog.           (* distributeSlashedFunds *)
 
   Definition OP_REGISTER_ENTITY : N := 1.
   Definition OP_REGISTER_NODE : N := 2.
@@ -202,6 +210,10 @@ Section Ports.
   Definition OP_RT_EPOCH_MAINTENANCE : N := 4.
   Definition OP_REGISTER_RUNTIME : N := 5.
   Definition OP_SUBMIT_MSG : N := 6.
+  Definition OP_EVIDENCE : N := 7.
+  Definition E_INVALID_EVIDENCE : N := 115.
+  Definition E_DUPLICATE_EVIDENCE : N := 116.
+  Definition E_RT_DOES_NOT_SLASH : N := 117.
 
   Definition gas (params : option val) (op mult : N) : N := (cost params op * mult) mod two64.   (* gas.go:47 *)
 
@@ -373,6 +385,56 @@ Section Ports.
     end))
     end.
 
+
+  (* ---- roothash/transactions.go submitEvidence, after the repair 583b4f4: the evidence hash
+     and the slashing are done in a transaction layer, the state wrapper is REBUILT from the
+     layer's ctx.State() (so SetEvidenceHash writes into the layer), Commit only on success ---- *)
+  Definition h_submit_evidence (m : mode) (x : tx) : hprog :=
+    if negb (validate_evidence x) then HRet (Err E_INVALID_EVIDENCE) else                  (* ValidateBasic *)
+    match m with Check => HRet Ok | _ =>
+    HGetH k_rh_params (fun rp =>
+    HGas (gas rp OP_EVIDENCE 1) (
+    match m with Sim => HRet Ok | _ =>
+    HGetH (k_rt_state x) (fun rs =>                                                        (* getRuntimeState *)
+    if negb (rt_state_usable rs) then HRet (Err E_RT_STATE) else
+    if negb (rt_slashes rs) then HRet (Err E_RT_DOES_NOT_SLASH) else                       (* no slashing / zero amount *)
+    if evidence_expired rp rs x then HRet (Err E_INVALID_EVIDENCE) else                    (* MaxEvidenceAge *)
+    HGetH (k_evidence x) (fun ev =>                                                        (* EvidenceHashExists *)
+    if nonempty ev then HRet (Err E_DUPLICATE_EVIDENCE) else
+    HOpen (                                                                                (* ctx = ctx.NewTransaction(); defer ctx.Close() *)
+    (* state = roothashState.NewMutableState(ctx.State()): a wrapper of the LAYER *)
+    HPut (k_evidence x) (new_val x ev) (                                                   (* SetEvidenceHash *)
+    if penalty_zero rs then HCommit (HRet Ok) else                                         (* slashing.go:47-49 *)
+    HGet (k_accused_node x) (fun nd =>                                                     (* slashing.go:54 *)
+    match nd with
+    | None => HRet (Err E_INVALID_EVIDENCE)                                                (* :55-63 fake-but-valid evidence *)
+    | Some _ =>
+      HGet (k_accused_acct x) (fun a =>                                                    (* :67 SlashEscrow *)
+      match slash_escrow a x with
+      | None => HRet (Err E_INVALID_EVIDENCE)                                              (* :68-70 *)
+      | Some a' =>
+        HPut (k_accused_acct x) a' (
+        if slashed_nothing a x then HCommit (HRet Ok) else                                 (* :72-78 *)
+        HGet (k_caller_node x) (fun cn =>                                                  (* :83 *)
+        HSub (distribute cn x) (fun r =>                                                   (* :96 *)
+        match r with Err e => HRet (Err e) | Ok => HCommit (HRet Ok) end)))
+      end)
+    end)))))
+    end))
+    end.
+
+  (* the order BEFORE the repair: the hash is stored through the received handle with no layer,
+     then the slashing may fail *)
+  Definition h_submit_evidence_old (x : tx) : hprog :=
+    HGetH (k_evidence x) (fun ev =>
+    if nonempty ev then HRet (Err E_DUPLICATE_EVIDENCE) else
+    HPutH (k_evidence x) (new_val x ev) (
+    HGet (k_accused_node x) (fun nd =>
+    match nd with
+    | None => HRet (Err E_INVALID_EVIDENCE)
+    | Some _ => HRet Ok
+    end))).
+
   (* The seeded change C08-1: `st` is built from ctx.State() BEFORE the layer is opened, so
      the transfer goes through a handle of the tree below the layer. *)
   Definition h_submit_msg_c08_1 (x : tx) : hprog :=
@@ -416,6 +478,29 @@ Section Ports.
   Proof. unfold h_register_runtime. hs. Qed.
   Lemma submit_msg_safe m x : hsafe false (h_submit_msg m x).
   Proof. unfold h_submit_msg. hs. Qed.
+
+  Lemma submit_evidence_safe m x : hsafe false (h_submit_evidence m x).
+  Proof. unfold h_submit_evidence. hs. Qed.
+
+  Definition submitevidence_exec (m : mode) (x : tx) : option handler :=
+    if tx_method x =? 6 then Some (hrun (h_submit_evidence m x) false) else None.
+
+  Lemma submitevidence_handler_atomic m x h : submitevidence_exec m x = Some h -> atomic h.
+  Proof.
+    unfold submitevidence_exec.
+    destruct (tx_method x =? 6); [intros H; replace h with (hrun (h_submit_evidence m x) false) by congruence; apply hsafe_atomic, submit_evidence_safe|discriminate].
+  Qed.
+
+  Lemma failed_tx_effect_submitevidence P dec size s e g s' :
+    deliver P submitevidence_exec dec size s = (Err e, g, s') ->
+    s' = s \/ (exists x, dec = Some x /\ s' = post_auth_state s x).
+  Proof.
+    intros H.
+    destruct (failed_tx_effect_generic _ _ _ _ _ _ _ _ H) as [->|[x [g1 [t1 [fa1 [Hd [_ [_ ->]]]]]]]].
+    - intros x h _ Hx. eapply submitevidence_handler_atomic; exact Hx.
+    - left; reflexivity.
+    - right. exists x. auto.
+  Qed.
 
   Definition registry_exec (m : mode) (x : tx) : option handler :=
     if tx_method x =? 1 then Some (hrun (h_register_entity m x) false)
@@ -513,6 +598,20 @@ Proof.
   intros A.
   pose (t := mkT [(20, VRaw 1000); (11, VRaw 1)] [[]]).
   assert (H : exists g' t', hrun c08_1_handler false (mkGas 1000 0 false) t = (Err E_QUEUE_FULL, g', t') /\ t' <> t).
+  { eexists _, _. split; [vm_compute; reflexivity|]. vm_compute. discriminate. }
+  destruct H as [g' [t' [H Hne]]]. apply Hne. eapply A; exact H.
+Qed.
+
+(* ---------- submitEvidence before the repair 583b4f4 was NOT atomic ---------- *)
+Definition evidence_old_handler : hprog :=
+  h_submit_evidence_old (fun _ _ => VRaw 1) (fun v => match v with Some _ => true | None => false end)
+    (fun _ => 30) (fun _ => 31) (mkTx 20 0 0 0 6 false 0).
+
+Lemma evidence_old_not_atomic : ~ atomic (hrun evidence_old_handler false).
+Proof.
+  intros A.
+  pose (t := mkT [(20, VRaw 1000)] [[]]).
+  assert (H : exists g' t', hrun evidence_old_handler false (mkGas 1000 0 false) t = (Err E_INVALID_EVIDENCE, g', t') /\ t' <> t).
   { eexists _, _. split; [vm_compute; reflexivity|]. vm_compute. discriminate. }
   destruct H as [g' [t' [H Hne]]]. apply Hne. eapply A; exact H.
 Qed.
